@@ -850,13 +850,15 @@ pub struct ChaosCfg {
     pub close: bool,
     pub retain_take: bool,
     pub p_fail: u32,
+    /// full speed instead of injected delays
+    pub hammer: bool,
 }
 
 pub fn run_chaos(prop: &'static str, cfg: ChaosCfg, seed: u64) -> ChaosOut {
     let limit = if cfg.resize || cfg.close { isize::MAX } else { cfg.max_size as isize };
     let sh = Sh::new(prop, limit, true, cfg.p_fail);
     let pool = build(&sh, cfg.max_size);
-    let ctl = Ctl::new(CtlMode::Chaos, "", 0);
+    let ctl = Ctl::new(if cfg.hammer { CtlMode::Hammer } else { CtlMode::Chaos }, "", 0);
     let resizes: Arc<Mutex<Vec<usize>>> = Arc::new(Mutex::new(vec![cfg.max_size]));
     let waited = Arc::new(AtomicUsize::new(0));
     let mut handles = Vec::new();
@@ -875,8 +877,8 @@ pub fn run_chaos(prop: &'static str, cfg: ChaosCfg, seed: u64) -> ChaosOut {
                         0..=34 => {
                             // blocking get, cancelled after a bounded number of parks
                             let fut = pool.get();
-                            let parks = if cfg!(miri) { 3 } else { 30 };
-                            match block_on_cancel(fut, parks, Duration::from_micros(if cfg!(miri) { 0 } else { 300 })) {
+                            let parks = if cfg!(miri) || cfg.hammer { 3 } else { 30 };
+                            match block_on_cancel(fut, parks, Duration::from_micros(if cfg!(miri) || cfg.hammer { 0 } else { 300 })) {
                                 Some(Ok(o)) => {
                                     let h = sh.holders.fetch_add(1, Ordering::SeqCst) + 1;
                                     let lim = sh.limit.load(Ordering::SeqCst);
